@@ -1089,6 +1089,10 @@ func (c *compiler) evalForExpression(node *ast.ForExpression) (interface{}, erro
 }
 
 func (c *compiler) evalBlockStatement(node *ast.BlockStatement) (interface{}, error) {
+	// once the block has been evaluated the statement that holds it is the
+	// current one again: a later error in that statement is not the block's
+	outer := c.curStmt
+
 	res := []interface{}{}
 	for _, s := range node.Statements {
 		i, err := c.evalStatement(s)
@@ -1116,10 +1120,12 @@ func (c *compiler) evalBlockStatement(node *ast.BlockStatement) (interface{}, er
 				resValue = obj
 			}
 
+			c.curStmt = outer
 			return resValue, nil
 		}
 	}
 
+	c.curStmt = outer
 	return res, nil
 }
 
